@@ -5,11 +5,13 @@
 patch="$1"; shift
 if [ -n "$(git -C /repo status --porcelain)" ]; then echo "/repo is not clean"; exit 2; fi
 if ! git -C /repo apply "$patch"; then echo "patch does not apply"; exit 2; fi
+# the change never outlives this script, whatever ends it (also a closed output pipe)
+trap 'git -C /repo checkout -- .' EXIT
+trap 'exit 2' HUP INT TERM PIPE
 for p in "$@"; do
-    out=$(/verif/vcheck "$p" "${TIER:-quick}" 2>&1); code=$?
+    out=$(VSIM_EVIDENCE_DIR=/verif/target/seeded-evidence /verif/vcheck "$p" "${TIER:-quick}" 2>&1); code=$?
     line=$(printf '%s\n' "$out" | grep -E "^(VIOLATION|HARNESS-ERROR)" | head -1)
     v=$(printf '%s\n' "$out" | grep -E "^violation at" | head -1 | cut -c1-300)
     echo "$p exit=$code $line"
     [ -n "$v" ] && echo "    $v"
 done
-git -C /repo checkout -- .
